@@ -5,6 +5,7 @@
 //!   push_anchor_default v<i> <n>   `OwningIovec::push_anchor(a)`, `a` = `Default::default()` after `n` calls of
 //!                                  `increment_count()` (n = 0: literally `push_anchor(Default::default())`)
 //!   a_default                      `ByteArena::default()`   (new arena handle; `new_arena` is `ByteArena::new()`)
+//!   is_empty v<i>                  `OwningIovec::is_empty()` and `len()` (all slices, pending ones included)
 //!
 //! `Anchor` is not re-exported by `owning_iovec`, so the type cannot be named here either; `anchor_of`
 //! obtains a value by inference from the signature of `push_anchor`, exactly what any safe caller can do.
@@ -30,6 +31,18 @@ impl IovecExec {
                 self.arenas.push(Some(a));
                 so.tags.push("api2.a_default".into());
                 self.describe(&mut so, None);
+                Some(so)
+            }
+            ["is_empty", v] => {
+                let Some(i) = handle('v', v) else { return Some(StepOut::bad()) };
+                let Some(Some(iov)) = self.iovs.get(i) else { return Some(StepOut::bad()) };
+                let (e, n) = (iov.is_empty(), iov.len());
+                if e != (n == 0) || (e && iov.total_size() != 0) {
+                    so.violations.push(format!("C03 v{} is_empty() = {} with len() = {}, total_size() = {}", i, e, n, iov.total_size()));
+                }
+                so.obs.push(format!("R {} len={}", e as u8, n));
+                so.tags.push("api2.is_empty".into());
+                self.describe(&mut so, Some(i));
                 Some(so)
             }
             ["push_anchor_default", v, n] => {
@@ -82,6 +95,7 @@ pub(super) fn gen_op(g: &mut Gen<'_>, v: usize) -> bool {
             g.n_arena += 1;
             g.arena_alive.push(true);
         }
+        2 => g.ops.push(format!("is_empty v{}", v)),
         1 => {
             let n = *g.rng.pick(&[1u64, 2, 5]);
             g.ops.push(format!("push_anchor_default v{} {}", v, n));
